@@ -328,6 +328,8 @@ type Exec struct {
 	stack      []*ssa.Function
 	forceInline bool
 	noCut      bool
+	fpBits     map[*Term]*Term
+	fpOf       map[*Term]*Term
 	globalList []*Region
 	initMode   bool
 	rootDet    *cval
@@ -341,7 +343,7 @@ type Exec struct {
 func newExec(P *Program) *Exec {
 	e := &Exec{P: P, c: NewCtx(), regions: map[*Term]*Region{}, globals: map[*ssa.Global]*Term{},
 		strs: map[string]Val{}, inlined: map[string]bool{}, viaCt: map[string]bool{},
-		assumed: map[string]bool{}, lineHash: map[string]int{}, closures: map[*Term]*closure{}, constGlobals: map[*Term]bool{}}
+		assumed: map[string]bool{}, lineHash: map[string]int{}, closures: map[*Term]*closure{}, constGlobals: map[*Term]bool{}, fpBits: map[*Term]*Term{}, fpOf: map[*Term]*Term{}}
 	e.cfg = ExecConfig{unroll: 40, inlineDepth: 8, maxPaths: 20000}
 	e.maxSteps = 3000000
 	for i, w := range heapWidths {
@@ -433,15 +435,21 @@ func (e *Exec) zeroRange(st State, T types.Type, a *Term, count *Term) State {
 // ---------- load / store of multi-slot values ----------
 
 func (e *Exec) toReg(k SlotKind, cell *Term) *Term {
-	if k == SBool {
+	switch k {
+	case SBool:
 		return e.c.Ne(cell, e.c.Const(8, 0))
+	case SF32, SF64:
+		return e.fpFromBits(cell)
 	}
 	return cell
 }
 
 func (e *Exec) toCell(k SlotKind, reg *Term) *Term {
-	if k == SBool {
+	switch k {
+	case SBool:
 		return e.c.Ite(reg, e.c.Const(8, 1), e.c.Const(8, 0))
+	case SF32, SF64:
+		return e.fpToBits(reg)
 	}
 	return reg
 }
@@ -996,6 +1004,7 @@ func (e *Exec) globalAddr(g *ssa.Global) *Term {
 		for i, k := range sl {
 			cell := c.Select(e.base[k.heapIdx()], c.Add(a, c.Const(64, uint64(i))))
 			e.axioms = append(e.axioms, c.Eq(cell, c.Const(k.width(), v[i])))
+			_ = regSort
 		}
 		e.constGlobals[a] = true
 	}
